@@ -305,8 +305,14 @@ func c20Run(c *ev.Ctx) {
 					continue
 				}
 				pb := math.Float32bits(float32(p))
-				for d := -3; d <= 3; d++ {
-					b := uint32(int64(pb) + int64(d))
+				// ±1..3 ulp, and ± every single low bit 2^k ulp (k = 2..22): a rounding
+				// step that loses one bit of the discarded part (a sticky bit) shows exactly there
+				ds := []int64{-3, -2, -1, 0, 1, 2, 3}
+				for k := uint(2); k <= 22; k++ {
+					ds = append(ds, int64(1)<<k, -(int64(1) << k))
+				}
+				for _, d := range ds {
+					b := uint32(int64(pb) + d)
 					if b&0x7fffffff > 0x7f800000 {
 						continue
 					}
@@ -354,7 +360,7 @@ func c20Run(c *ev.Ctx) {
 var C20 = &ev.Property{
 	ID:    "C20",
 	Level: "exploration",
-	Rule: "case 0-2: every code of E4M3/E5M2/bfloat16 (decode exactness, code->float32->code, byte codec) plus the float32 neighbours (±3 ulp, both signs) of every representable value, every midpoint between adjacent representable values and the overflow band; " +
+	Rule: "case 0-2: every code of E4M3/E5M2/bfloat16 (decode exactness, code->float32->code, byte codec) plus the float32 neighbours (±1..3 ulp and ± every single low bit 2^k ulp, k=2..22, both signs) of every representable value, every midpoint between adjacent representable values and the overflow band; " +
 		"cases 3-258: per float32 exponent field 4096 mantissa strata × both signs (incl. all NaN payload strata); thorough adds 4096 blocks of 2^20 consecutive bit patterns = all 2^32 float32 values per format with a monotonicity sweep. " +
 		"distinct_nontrivial counts distinct (by construction) codes + float32 bit patterns evaluated per format; every input is non-trivial (each is a conversion with an exact reference answer).",
 	Assumptions: []string{
